@@ -1,0 +1,18 @@
+//go:build verif
+
+package seq
+
+// Interface-level contracts used by the deductive verifier in /verif (govc).
+// Only compiled with -tags verif.
+
+// Clone returns a non-nil value of the receiver's own dynamic type.
+//@ func (Sequence).Clone
+//@   ensures result != nil && dyn(result) == dyn(self)
+//@   assigns fresh
+
+// Appending to a sequence does not touch the state of the reader that drives it
+// (assumption on implementations: they only modify the receiver).
+//@ func (Appender).AppendLetters
+//@   pure
+//@ func (Appender).AppendQLetters
+//@   pure
